@@ -271,6 +271,13 @@ class UndefinedName(str):
         return str(self)
 
 
+def alt_order(name):
+    # type: (Name | UndefinedName) -> tuple[bool, loc_t, loc_t]
+    """Source order of alternatives: the undefined marker first, then by position."""
+    return (type(name) is not UndefinedName,
+            getattr(name, 'declared_at', (0, 0)), name.location)
+
+
 class MultiName(object):
     def __init__(self, names):
         # type: (list[Name | UndefinedName]) -> None
@@ -280,7 +287,9 @@ class MultiName(object):
                 allnames.extend(n.alt_names)
             else:
                 allnames.append(n)
-        self.alt_names = list(set(allnames))
+        seen = set()  # type: set[t.Any]
+        unique = [n for n in allnames if not (n in seen or seen.add(n))]  # type: ignore[func-returns-value]
+        self.alt_names = sorted(unique, key=alt_order)
         self.name = self.alt_names[0].name
 
     def __repr__(self):  # type: () -> str
